@@ -309,6 +309,7 @@ def run_case(case: dict, stop_first: bool = True) -> CaseResult:
         return res
     snap0 = pg.template_snapshot(tmpl, ctx)
     by_tag: dict = {}
+    held: list = []
     for bi, b in enumerate(case["builds"]):
         assign = b["assign"]
         kwargs = {n: (v[0] if (decl[n]["size"] == 1 and b.get("scalars")) else list(v))
@@ -403,8 +404,19 @@ def run_case(case: dict, stop_first: bool = True) -> CaseResult:
                                           f"with the same values: {dd}", {}))
             else:
                 by_tag[sig] = dig
+            # independence: sequences built earlier keep saying what they said when they were built
+            # (a built object that shares a buffer with the template's variables would follow the
+            # values of every later build — seeded change C08-assign-in-place-shares-buffer)
+            for hbi, hbuilt, hsamp in held[-2:]:
+                dh = pg.diff_samples(pg.seq_samples(hbuilt), hsamp, 0.0)
+                if dh:
+                    res.fails.append(Fail("earlier-build-held", f"after build {bi}, the sequence returned by "
+                                          f"build {hbi} changed: {dh}", {}))
+                    break
             if b.get("mutate"):
                 mutate_built(built)
+            else:
+                held.append((bi, built, pg.seq_samples(built)))
         # 2. the template is what it was
         snap1 = pg.template_snapshot(tmpl, ctx)
         dt = pg.diff_tol(snap0, snap1, "", 0.0)
